@@ -310,6 +310,144 @@ theorem f2_F2_eq_matrix (obj : PSurf ℝ) (rest : List (PSurf ℝ)) (ap : ApType
   num_real
   rw [hrs, hl'.1, hl'.2]
 
+/-! ### time reversal: the inverted system undoes the forward trace (entrance pupil = stop conjugate) -/
+
+/-- final ray state after a list of surfaces -/
+noncomputable def pfinal (r : PRay ℝ) (ss : List (PSurf ℝ)) : PRay ℝ := ss.foldl pstep r
+
+/-- one surface as `SurfaceGroup.inverted` rewrites it (`zl` = vertex of the last surface) -/
+noncomputable def rv (zl : ℝ) (s : PSurf ℝ) : PSurf ℝ :=
+  { s with r := s.r * (-1), z := zl - s.z, n1 := s.n2, n2 := s.n1 }
+
+/-- standard surfaces of an axially symmetric lens with non-zero indices -/
+def Std (ss : List (PSurf ℝ)) : Prop :=
+  ∀ s ∈ ss, s.kind = .standard ∧ s.dy = 0 ∧ s.n1 ≠ 0 ∧ s.n2 ≠ 0
+
+theorem inverted_eq (ss : List (PSurf ℝ)) (l : PSurf ℝ) (h : ss.getLast? = some l) :
+    inverted ss = ss.reverse.map (rv l.z) := by
+  unfold inverted rv
+  rw [h]
+
+/-- `pstepStd` only sees the ray through its height and slope at the surface: sliding the start point
+along the ray changes nothing -/
+theorem pstepStd_slide (y u z z' : ℝ) (s : PSurf ℝ) :
+    pstepStd ⟨y, u, z⟩ s = pstepStd ⟨y + (z' - z) * u, u, z'⟩ s := by
+  unfold pstepStd
+  num_real
+  have e : y - s.dy + -(z - s.z) * u = y + (z' - z) * u - s.dy + -(z' - s.z) * u := by ring
+  simp only [e, PRay.mk.injEq, true_and]
+  ring
+
+/-- **time reversal at one surface**: entering the inverted surface with the outgoing ray reversed gives
+back the incoming ray reversed (refraction and mirror) -/
+theorem pstep_reverse (r : PRay ℝ) (s : PSurf ℝ) (zl : ℝ) (hdy : s.dy = 0) (hn1 : s.n1 ≠ 0) (hn2 : s.n2 ≠ 0) :
+    let r' := pstepStd r s
+    pstepStd ⟨r'.y, -r'.u, zl - s.z⟩ (rv zl s) = ⟨r'.y, -r.u, zl - s.z⟩ := by
+  intro r'
+  simp only [r', pstepStd, rv]
+  num_real
+  rw [hdy]
+  rcases Bool.eq_false_or_eq_true s.refl with h | h
+  · simp only [h, if_true, PRay.mk.injEq]
+    refine ⟨by ring, ?_, by ring⟩
+    by_cases hr : s.r = 0
+    · simp [hr]
+    · field_simp; ring
+  · simp only [h, Bool.false_eq_true, if_false, PRay.mk.injEq]
+    refine ⟨by ring, ?_, by ring⟩
+    by_cases hr : s.r = 0
+    · simp [hr]; field_simp
+    · field_simp; ring
+
+theorem pstepStd_z (r : PRay ℝ) (s : PSurf ℝ) : (pstepStd r s).z = s.z := by
+  unfold pstepStd; num_real; ring
+
+/-- **reverse_trace**: tracing the final ray, reversed, through the inverted surfaces ends on the first
+surface with the height the forward ray had there and the launch slope reversed. -/
+theorem reverse_trace : ∀ (ss : List (PSurf ℝ)) (s1 : PSurf ℝ) (r0 : PRay ℝ) (zl : ℝ), Std (s1 :: ss) →
+    let rf := pfinal r0 (s1 :: ss)
+    pfinal ⟨rf.y, -rf.u, zl - rf.z⟩ ((s1 :: ss).reverse.map (rv zl)) =
+      ⟨r0.y + (s1.z - r0.z) * r0.u, -r0.u, zl - s1.z⟩
+  | [], s1, r0, zl, hstd => by
+    have h1 := hstd s1 (by simp)
+    intro rf
+    simp only [rf, pfinal, List.foldl_cons, List.foldl_nil, pstep, h1.1, List.reverse_cons, List.reverse_nil,
+      List.nil_append, List.map_cons, List.map_nil, rv]
+    have hz := pstepStd_z r0 s1
+    have hrev := pstep_reverse r0 s1 zl h1.2.1 h1.2.2.1 h1.2.2.2
+    simp only [rv, h1.1] at hrev
+    rw [hz, hrev]
+    simp only [PRay.mk.injEq, and_true, true_and]
+    unfold pstepStd; num_real; rw [h1.2.1]; ring
+  | s2 :: ss, s1, r0, zl, hstd => by
+    have h1 := hstd s1 (by simp)
+    have hstd' : Std (s2 :: ss) := fun t ht => hstd t (by simp [ht])
+    intro rf
+    have ih := reverse_trace ss s2 (pstepStd r0 s1) zl hstd'
+    simp only at ih
+    have e0 : pfinal r0 (s1 :: s2 :: ss) = pfinal (pstepStd r0 s1) (s2 :: ss) := by
+      simp only [pfinal, List.foldl_cons, pstep, h1.1]
+    simp only [rf, e0]
+    rw [List.reverse_cons, List.map_append, pfinal, List.foldl_append]
+    rw [show List.foldl pstep _ (List.map (rv zl) (s2 :: ss).reverse) =
+        pfinal ⟨(pfinal (pstepStd r0 s1) (s2 :: ss)).y, -(pfinal (pstepStd r0 s1) (s2 :: ss)).u,
+          zl - (pfinal (pstepStd r0 s1) (s2 :: ss)).z⟩ ((s2 :: ss).reverse.map (rv zl)) from rfl]
+    rw [ih]
+    simp only [List.map_cons, List.map_nil, List.foldl_cons, List.foldl_nil, pstep]
+    have hk : (rv zl s1).kind = .standard := h1.1
+    simp only [hk]
+    -- slide the ray from surface 2 back to surface 1, then undo the refraction at surface 1
+    have hz1 := pstepStd_z r0 s1
+    rw [pstepStd_slide _ _ _ (zl - s1.z)]
+    have hy : (pstepStd r0 s1).y + (s2.z - (pstepStd r0 s1).z) * (pstepStd r0 s1).u +
+        (zl - s1.z - (zl - s2.z)) * -(pstepStd r0 s1).u = (pstepStd r0 s1).y := by
+      rw [hz1]; ring
+    rw [hy]
+    have hrev := pstep_reverse r0 s1 zl h1.2.1 h1.2.2.1 h1.2.2.2
+    simp only at hrev
+    rw [hrev]
+    simp only [PRay.mk.injEq, and_true, true_and]
+    unfold pstepStd; num_real; rw [h1.2.1]; ring
+
+/-- **EPL_is_stop_conjugate**: let a forward ray leave the axial point `zE` with slope `u0 ≠ 0` and,
+after the surfaces in front of the stop, pass through the stop centre (height 0 at `zs`).  Then the
+reverse trace the code performs — from the stop centre, through the inverted front surfaces — ends on
+the first surface with height/slope ratio `y/u = zE − z₁`: `EPL` (measured from the first vertex)
+is the axial position of the point conjugate to the stop centre. -/
+theorem EPL_is_stop_conjugate (ss : List (PSurf ℝ)) (s1 : PSurf ℝ) (zE u0 zs zl : ℝ) (hstd : Std (s1 :: ss))
+    (hu : u0 ≠ 0)
+    (hstop : (pfinal ⟨0, u0, zE⟩ (s1 :: ss)).y + (zs - (pfinal ⟨0, u0, zE⟩ (s1 :: ss)).z) *
+      (pfinal ⟨0, u0, zE⟩ (s1 :: ss)).u = 0) :
+    let rf := pfinal ⟨0, u0, zE⟩ (s1 :: ss)
+    let e := pfinal ⟨0, -rf.u, zl - zs⟩ ((s1 :: ss).reverse.map (rv zl))
+    e.y / e.u = zE - s1.z := by
+  intro rf e
+  have hrt := reverse_trace ss s1 ⟨0, u0, zE⟩ zl hstd
+  simp only at hrt
+  -- the code starts on the stop plane; slide the start to the last front surface
+  have hslide : e = pfinal ⟨rf.y, -rf.u, zl - rf.z⟩ ((s1 :: ss).reverse.map (rv zl)) := by
+    simp only [e]
+    cases hl : ((s1 :: ss).reverse.map (rv zl)) with
+    | nil => simp at hl
+    | cons a l =>
+      have ha : a ∈ (s1 :: ss).reverse.map (rv zl) := by rw [hl]; simp
+      obtain ⟨t, ht, hta⟩ := List.mem_map.mp ha
+      have hka : a.kind = .standard := by
+        rw [← hta]; exact (hstd t (List.mem_reverse.mp ht)).1
+      simp only [pfinal, List.foldl_cons, pstep, hka]
+      congr 1
+      rw [pstepStd_slide 0 (-rf.u) (zl - zs) (zl - rf.z)]
+      congr 1
+      have : (0:ℝ) + (zl - rf.z - (zl - zs)) * -rf.u = rf.y := by
+        have := hstop
+        simp only [rf] at this ⊢
+        linarith [this]
+      rw [this]
+  rw [hslide, hrt]
+  simp only
+  field_simp
+  ring
+
 /-! ### non-vacuity: a singlet with a mirror behind it meets every hypothesis -/
 example :
     WF [⟨.object, 0, -100, 0, 1, 1, false, false⟩, ⟨.standard, 0, 0, 50, 1, 1.5, false, true⟩,
